@@ -85,10 +85,22 @@ def check_slice(dset, kinds, slices, rec, case):
         return None
     exp_val = dset.value[sls]
     exp_err = dset.error[sls]
-    if not (np.array_equal(res.value, exp_val)
-            and np.array_equal(res.error, exp_err)):
+    if not (np.array_equal(np.ma.getdata(res.value), np.ma.getdata(exp_val))
+            and np.array_equal(np.ma.getdata(res.error),
+                               np.ma.getdata(exp_err))):
         rec.violation('slice-wrong-cells', f'{tag}: value/error differ from '
                       'the same slice of the arrays', case)
+    if np.ma.isMaskedArray(dset.value):
+        # hidden cells stay hidden (and visible ones visible)
+        rec.count('masked_slices_checked')
+        for got, exp in ((res.value, exp_val), (res.error, exp_err)):
+            if not np.array_equal(np.ma.getmaskarray(got),
+                                  np.ma.getmaskarray(exp)):
+                rec.violation('slice-lost-the-mask', f'{tag}: mask of the '
+                              f'result {np.ma.getmaskarray(got).tolist()} '
+                              'differs from the same slice of the mask',
+                              case)
+                break
     if list(res.bins) != list(dset.bins):
         rec.violation('slice-bins-keys', f'{tag}: keys {list(res.bins)}',
                       case)
@@ -127,8 +139,12 @@ def check_squeeze(dset, rec, case, tag):
     if np.shape(res.value) != exp_shape or np.shape(res.error) != exp_shape:
         rec.violation('squeeze-shape', f'{tag}: shape {np.shape(res.value)} '
                       f'expected {exp_shape}', case)
-    elif not (np.array_equal(res.value, np.squeeze(dset.value))
-              and np.array_equal(res.error, np.squeeze(dset.error))):
+    elif not (np.array_equal(np.ma.getdata(res.value),
+                             np.ma.getdata(np.squeeze(dset.value)))
+              and np.array_equal(np.ma.getdata(res.error),
+                                 np.ma.getdata(np.squeeze(dset.error)))
+              and np.array_equal(np.ma.getmaskarray(res.value),
+                                 np.ma.getmaskarray(np.squeeze(dset.value)))):
         rec.violation('squeeze-values', tag, case)
     if list(res.bins) != [key for key, _ in keep]:
         rec.violation('squeeze-bins-keys', f'{tag}: {list(res.bins)} expected '
@@ -170,6 +186,11 @@ def run_case(seed, idx, rec):
     kinds = ''.join(rng.choice('ec') for _ in range(ndim))
     dset = make(shape, kinds)
     case = {'seed': seed, 'idx': idx}
+    if rng.random() < 0.2:
+        # a dataset with hidden cells
+        dset = dset.mask(np.array([rng.random() < 0.4 for _ in
+                                   range(dset.value.size)]).reshape(shape))
+        rec.count('masked_datasets')
     cur, curk = dset, kinds
     for _ in range(rng.randint(1, 3)):
         slices = []
@@ -192,6 +213,14 @@ def run_case(seed, idx, rec):
                         'kinds': curk, 'slices': slices})
         check_squeeze(res, rec, case,
                       f'shape={list(res.shape)} kinds={curk}')
+        if rng.random() < 0.25:
+            # the bins of the dataset are replaced (other unit), then the
+            # very same slice is asked again from the same object
+            for key in list(cur.bins):
+                cur.bins[key] = cur.bins[key] * 1000.0 + 7.0
+            rec.count('same_slice_after_the_bins_changed')
+            if check_slice(cur, curk, slices, rec, case) is None:
+                break
         cur = res
     rec.count('evaluations')
 
